@@ -103,6 +103,14 @@ func conflicts(chosen []string, a string) bool {
 
 func (g *gen) add(op Op) { g.ops = append(g.ops, op) }
 
+// feeOpt: the sender's fee option (copied into the packet, echoed in the acknowledgement): non-zero for ~40 % of the sends
+func (g *gen) feeOpt() uint64 {
+	if g.r.Chance(3, 5) {
+		return 0
+	}
+	return []uint64{1, 2, 7}[g.r.Intn(3)]
+}
+
 func (g *gen) genSend() {
 	c := g.r.Intn(nChains)
 	dw := []int{80, 10, 10} // peer, unknown, tss
@@ -136,11 +144,14 @@ func (g *gen) genSend() {
 	if g.r.Chance(1, 12) {
 		// multi-hop through the agent contract: the callback on chain 1 sends a packet to chain 2
 		c, dst, variant = 0, 1, "agent"
+		if g.r.Chance(1, 4) {
+			variant = "agent_unknown" // the onward send of the destination callback is refused by the packet hook
+		}
 		if amount == 0 {
 			amount = 5
 		}
 	}
-	g.add(Op{K: "send", Chain: c, Dst: dst, Variant: variant, Amount: amount, Fee: fee, Commit: g.r.Chance(commitP, 10)})
+	g.add(Op{K: "send", Chain: c, Dst: dst, Variant: variant, Amount: amount, Fee: fee, FeeOpt: g.feeOpt(), Commit: g.r.Chance(commitP, 10)})
 	if dst != -1 && !(amount == 0 && (variant == "erc20" || variant == "base" || variant == "notrace")) {
 		g.pkts = append(g.pkts, gPkt{src: c, dst: dst, ackIdx: -1})
 	}
@@ -162,7 +173,7 @@ func (g *gen) genSendMulti() {
 	legs := []Leg{}
 	for i := 0; i < n; i++ {
 		v := []string{"base", "erc20", "call"}[pick(g.r, []int{50, 30, 20})]
-		legs = append(legs, Leg{Dst: valid[i], Variant: v, Amount: uint64(1 + g.r.Intn(500))})
+		legs = append(legs, Leg{Dst: valid[i], Variant: v, Amount: uint64(1 + g.r.Intn(500)), FeeOpt: g.feeOpt()})
 	}
 	ok := true
 	if g.r.Chance(45, 100) {
@@ -367,6 +378,9 @@ func (g *gen) genOp() {
 			Relayer: pick(g.r, []int{70, 15, 15}), Variant: variant, Commit: g.r.Chance(7, 10)}
 		if g.r.Chance(1, 10) {
 			op.Mal = "height0" // zero proof height: ValidateBasic refuses what the TSS client would let through
+		} else if g.r.Chance(1, 8) {
+			// the public TSS address in the PROOF field, signed by another account: only the signer counts
+			op.Mal, op.Relayer = "proof_tssaddr", 1+g.r.Intn(2)
 		}
 		if g.r.Chance(1, 8) {
 			// a source chain for which no client exists (RecvPacket: client not found), addressed to this chain
@@ -384,17 +398,21 @@ func (g *gen) genOp() {
 		c := g.r.Intn(nChains)
 		if !g.tssSent[c] || g.r.Chance(1, 3) {
 			g.tssSent[c] = true
-			g.add(Op{K: "send", Chain: c, Dst: -2, Variant: []string{"erc20", "base"}[g.r.Intn(2)], Amount: uint64(1 + g.r.Intn(100)), Fee: uint64(g.r.Intn(4)), Commit: g.r.Chance(7, 10)})
+			g.add(Op{K: "send", Chain: c, Dst: -2, Variant: []string{"erc20", "base"}[g.r.Intn(2)], Amount: uint64(1 + g.r.Intn(100)), Fee: uint64(g.r.Intn(4)), FeeOpt: g.feeOpt(), Commit: g.r.Chance(7, 10)})
 			g.pkts = append(g.pkts, gPkt{src: c, dst: -2, ackIdx: -1})
 		}
 		variant := []string{"good", "err", "garbage", "zero", "badrelayer", "emptyack"}[pick(g.r, []int{40, 18, 12, 12, 12, 6})]
 		mal := ""
+		rel := pick(g.r, []int{80, 12, 8})
 		if g.r.Chance(1, 10) {
 			mal = "height0"
+		} else if g.r.Chance(1, 6) {
+			mal, rel = "proof_tssaddr", 1+g.r.Intn(2)
 		}
-		g.add(Op{K: "ack_tss", Chain: c, Pkt: g.r.Intn(4), Variant: variant, Mal: mal, Relayer: pick(g.r, []int{80, 12, 8}), Commit: g.r.Chance(7, 10)})
+		g.add(Op{K: "ack_tss", Chain: c, Pkt: g.r.Intn(4), Variant: variant, Mal: mal, Relayer: rel, Commit: g.r.Chance(7, 10)})
 	case "recv_eth":
-		variant := []string{"good", "decoy", "otherslot", "payload", "ackslot", "height+1", "height-1", "nodelay", "future", "emptyproof"}[pick(g.r, []int{46, 10, 9, 9, 5, 4, 4, 6, 3, 4})]
+		variant := []string{"good", "decoy", "otherslot", "payload", "ackslot", "height+1", "height-1", "nodelay", "future", "emptyproof",
+			"forged_storage", "forged_nonce", "forged_balance", "forged_codehash", "forged_account"}[pick(g.r, []int{40, 8, 7, 7, 4, 3, 3, 5, 3, 3, 8, 2, 2, 2, 3})]
 		g.add(Op{K: "recv_eth", Chain: g.r.Intn(nChains), Seq: uint64(1 + g.r.Intn(3)), Variant: variant, Type: []string{"", "bsc"}[g.r.Intn(2)], Relayer: pick(g.r, []int{80, 12, 8}), Commit: g.r.Chance(7, 10)})
 	case "ack_eth":
 		c := g.r.Intn(nChains)
@@ -404,10 +422,10 @@ func (g *gen) genOp() {
 		}
 		if !g.ethSent[[2]int{c, dst}] || g.r.Chance(1, 2) {
 			g.ethSent[[2]int{c, dst}] = true
-			g.add(Op{K: "send", Chain: c, Dst: dst, Variant: []string{"erc20", "base"}[g.r.Intn(2)], Amount: uint64(1 + g.r.Intn(100)), Fee: uint64(g.r.Intn(4)), Commit: g.r.Chance(7, 10)})
+			g.add(Op{K: "send", Chain: c, Dst: dst, Variant: []string{"erc20", "base"}[g.r.Intn(2)], Amount: uint64(1 + g.r.Intn(100)), Fee: uint64(g.r.Intn(4)), FeeOpt: g.feeOpt(), Commit: g.r.Chance(7, 10)})
 			g.pkts = append(g.pkts, gPkt{src: c, dst: dst, ackIdx: -1})
 		}
-		variant := []string{"good", "decoy", "otherslot", "commitslot", "ackbytes", "nodelay"}[pick(g.r, []int{46, 14, 10, 10, 10, 10})]
+		variant := []string{"good", "decoy", "otherslot", "commitslot", "ackbytes", "nodelay", "forged_storage", "forged_codehash"}[pick(g.r, []int{42, 12, 9, 9, 9, 8, 8, 3})]
 		g.add(Op{K: "ack_eth", Chain: c, Pkt: g.r.Intn(4), Variant: variant, Type: typ, Relayer: pick(g.r, []int{80, 12, 8}), Commit: g.r.Chance(7, 10)})
 	case "update":
 		c := g.r.Intn(nChains)
@@ -428,7 +446,7 @@ func (g *gen) genOp() {
 
 // happy: send a->b, update, recv on b, update, ack on a
 func (g *gen) happy(a, b int, variant string, explicitUpdates bool) {
-	g.add(Op{K: "send", Chain: a, Dst: b, Variant: variant, Amount: 100, Fee: 1, Commit: true})
+	g.add(Op{K: "send", Chain: a, Dst: b, Variant: variant, Amount: 100, Fee: 1, FeeOpt: uint64(a), Commit: true}) // fee options 0, 1, 2
 	i := len(g.pkts)
 	g.pkts = append(g.pkts, gPkt{src: a, dst: b, recvd: true, ackIdx: len(g.acks)})
 	if explicitUpdates {
@@ -516,7 +534,7 @@ func genSpec(r *hlib.Rand, seed uint64, idx, steps int, focus string) Spec {
 		// SendPacket refuses (first, middle or last position) changes nothing.  Pool indices in comments.
 		base := func(d int, a uint64) Leg { return Leg{Dst: d, Variant: "base", Amount: a} }
 		g.add(Op{K: "send", Chain: 0, Dst: 1, Variant: "erc20", Amount: 100, Fee: 1, Commit: true})                                                               // 0: (A,B,1)
-		g.add(Op{K: "send_multi", Chain: 0, Legs: []Leg{base(1, 100), base(2, 70)}, Commit: true})                                                                // 1: (A,B,2)  2: (A,C,1)
+		g.add(Op{K: "send_multi", Chain: 0, Legs: []Leg{{Dst: 1, Variant: "base", Amount: 100, FeeOpt: 2}, base(2, 70)}, Commit: true})                           // 1: (A,B,2)  2: (A,C,1)
 		g.add(Op{K: "send_multi", Chain: 0, Legs: []Leg{base(1, 10), base(1, 20)}, Commit: false})                                                                // B twice: rejected
 		g.add(Op{K: "send_multi", Chain: 0, Legs: []Leg{base(2, 5), base(-1, 6)}, Commit: false})                                                                 // unknown last: rejected
 		g.add(Op{K: "send_multi", Chain: 0, Legs: []Leg{base(-1, 6), base(2, 5)}, Commit: true})                                                                  // unknown first: rejected
@@ -546,26 +564,30 @@ func genSpec(r *hlib.Rand, seed uint64, idx, steps int, focus string) Spec {
 		}
 		g.add(Op{K: "ack", Chain: 0, Ack: 1, Relayer: 0, FreshProof: true, Commit: true}) // duplicate
 		// acknowledgements of (A,tss-0,1) (pool 3) through the TSS client: the signer is the only proof
-		g.add(Op{K: "send", Chain: 0, Dst: -2, Variant: "erc20", Amount: 9, Fee: 2, Commit: true})                           // 9: (A,tss-0,2)
-		g.add(Op{K: "ack_tss", Chain: 0, Pkt: 0, Variant: "good", Relayer: 1, Commit: true})                                 // wrong signer: rejected
-		g.add(Op{K: "ack_tss", Chain: 0, Pkt: 0, Variant: "garbage", Relayer: 0, Commit: true})                              // undecodable ack: rejected
-		g.add(Op{K: "ack_tss", Chain: 0, Pkt: 0, Variant: "zero", Relayer: 0, Commit: true})                                 // all-zero ack: rejected
-		g.add(Op{K: "ack_tss", Chain: 0, Pkt: 0, Variant: "badrelayer", Relayer: 0, Commit: true})                           // unknown relayer: rejected
-		g.add(Op{K: "ack_tss", Chain: 0, Pkt: 0, Variant: "good", Mal: "height0", Relayer: 0, Commit: true})                 // zero height: ValidateBasic
-		g.add(Op{K: "ack_tss", Chain: 0, Pkt: 0, Variant: "emptyack", Relayer: 0, Commit: true})                             // empty ack bytes: ValidateBasic
-		g.add(Op{K: "ack_tss", Chain: 0, Pkt: 0, Variant: "good", Relayer: 0, Commit: true})                                 // accepted
-		g.add(Op{K: "ack_tss", Chain: 0, Pkt: 0, Variant: "err", Relayer: 0, Commit: true})                                  // second ack: rejected
-		g.add(Op{K: "ack_tss", Chain: 0, Pkt: 1, Variant: "err", Relayer: 0, Commit: true})                                  // error ack of (A,tss-0,2): refund
-		g.add(Op{K: "recv_tss", Chain: 1, Seq: 1, Src: unknownChain, Dst: 1, Relayer: 0, Variant: "junk", Commit: true})     // no client for the source
-		g.add(Op{K: "recv_tss", Chain: 1, Seq: 5, DstSelf: true, Relayer: 0, Variant: "junk", Mal: "height0", Commit: true}) // zero height: ValidateBasic
-		g.add(Op{K: "recv_tss", Chain: 1, Seq: 5, DstSelf: true, Relayer: 0, Variant: "junk", Commit: true})                 // accepted
+		g.add(Op{K: "send", Chain: 0, Dst: -2, Variant: "erc20", Amount: 9, Fee: 2, Commit: true})                                 // 9: (A,tss-0,2)
+		g.add(Op{K: "ack_tss", Chain: 0, Pkt: 0, Variant: "good", Relayer: 1, Commit: true})                                       // wrong signer: rejected
+		g.add(Op{K: "ack_tss", Chain: 0, Pkt: 0, Variant: "good", Mal: "proof_tssaddr", Relayer: 1, Commit: true})                 // wrong signer, TSS address in ProofAcked: rejected
+		g.add(Op{K: "ack_tss", Chain: 0, Pkt: 0, Variant: "err", Mal: "proof_tssaddr", Relayer: 2, Commit: true})                  // the same from an unregistered account
+		g.add(Op{K: "ack_tss", Chain: 0, Pkt: 0, Variant: "garbage", Relayer: 0, Commit: true})                                    // undecodable ack: rejected
+		g.add(Op{K: "ack_tss", Chain: 0, Pkt: 0, Variant: "zero", Relayer: 0, Commit: true})                                       // all-zero ack: rejected
+		g.add(Op{K: "ack_tss", Chain: 0, Pkt: 0, Variant: "badrelayer", Relayer: 0, Commit: true})                                 // unknown relayer: rejected
+		g.add(Op{K: "ack_tss", Chain: 0, Pkt: 0, Variant: "good", Mal: "height0", Relayer: 0, Commit: true})                       // zero height: ValidateBasic
+		g.add(Op{K: "ack_tss", Chain: 0, Pkt: 0, Variant: "emptyack", Relayer: 0, Commit: true})                                   // empty ack bytes: ValidateBasic
+		g.add(Op{K: "ack_tss", Chain: 0, Pkt: 0, Variant: "good", Relayer: 0, Commit: true})                                       // accepted
+		g.add(Op{K: "ack_tss", Chain: 0, Pkt: 0, Variant: "err", Relayer: 0, Commit: true})                                        // second ack: rejected
+		g.add(Op{K: "ack_tss", Chain: 0, Pkt: 1, Variant: "err", Relayer: 0, Commit: true})                                        // error ack of (A,tss-0,2): refund
+		g.add(Op{K: "recv_tss", Chain: 1, Seq: 1, Src: unknownChain, Dst: 1, Relayer: 0, Variant: "junk", Commit: true})           // no client for the source
+		g.add(Op{K: "recv_tss", Chain: 1, Seq: 5, DstSelf: true, Relayer: 0, Variant: "junk", Mal: "height0", Commit: true})       // zero height: ValidateBasic
+		g.add(Op{K: "recv_tss", Chain: 1, Seq: 5, DstSelf: true, Relayer: 1, Variant: "junk", Mal: "proof_tssaddr", Commit: true}) // TSS address in ProofCommitment, signed by another relayer: rejected
+		g.add(Op{K: "recv_tss", Chain: 1, Seq: 5, DstSelf: true, Relayer: 1, Variant: "junk", Commit: true})                       // the same without proof: rejected
+		g.add(Op{K: "recv_tss", Chain: 1, Seq: 5, DstSelf: true, Relayer: 0, Variant: "junk", Commit: true})                       // accepted
 	case idx == 3:
 		// corpus: ONE guard at a time.  Every message below is a genuine, provable message with exactly one thing
 		// altered, offered while the genuine one is still pending (so only the guard in question stands between the
 		// message and its acceptance); the genuine message follows and must be accepted.
-		g.add(Op{K: "send", Chain: 0, Dst: 1, Variant: "erc20", Amount: 100, Fee: 2, Commit: true}) // pool 0: (A,B,1)
-		g.add(Op{K: "send", Chain: 0, Dst: 1, Variant: "base", Amount: 50, Fee: 1, Commit: true})   // pool 1: (A,B,2)
-		g.add(Op{K: "send", Chain: 1, Dst: 2, Variant: "call", Amount: 7, Fee: 0, Commit: true})    // pool 2: (B,C,1)
+		g.add(Op{K: "send", Chain: 0, Dst: 1, Variant: "erc20", Amount: 100, Fee: 2, FeeOpt: 2, Commit: true}) // pool 0: (A,B,1), fee option 2
+		g.add(Op{K: "send", Chain: 0, Dst: 1, Variant: "base", Amount: 50, Fee: 1, Commit: true})              // pool 1: (A,B,2)
+		g.add(Op{K: "send", Chain: 1, Dst: 2, Variant: "call", Amount: 7, Fee: 0, FeeOpt: 1, Commit: true})    // pool 2: (B,C,1), fee option 1
 		for i, a := range []string{"payload", "feeopt", "sender", "callback", "calldata", "seq+1", "seq-1", "swap", "src", "dst",
 			"height+1", "height-1", "proof_other", "proof_flip", "proof_empty"} {
 			g.add(Op{K: "recv", Chain: 1, Pkt: 0, Alter: []string{a}, Relayer: 0, FreshProof: i == 0, Commit: i%4 == 3})
@@ -590,9 +612,9 @@ func genSpec(r *hlib.Rand, seed uint64, idx, steps int, focus string) Spec {
 		// server writes the error acknowledgement) and by result code (token without trace: code 2).  Receipt and
 		// acknowledgement must persist although the callback's branch is dropped: the duplicate is refused, the
 		// acknowledgement is processed once on the source.
-		g.add(Op{K: "send_raw", Chain: 1, Dst: 2, Mal: "junkcall", Commit: true})                      // pool 3: (B,C,2)
-		g.add(Op{K: "send", Chain: 0, Dst: 1, Variant: "notrace", Amount: 9, Fee: 1, Commit: true})    // pool 4: (A,B,3)
-		g.add(Op{K: "send", Chain: 0, Dst: 1, Variant: "callrevert", Amount: 6, Fee: 0, Commit: true}) // pool 5: (A,B,4)
+		g.add(Op{K: "send_raw", Chain: 1, Dst: 2, Mal: "junkcall", Commit: true})                              // pool 3: (B,C,2)
+		g.add(Op{K: "send", Chain: 0, Dst: 1, Variant: "notrace", Amount: 9, Fee: 1, FeeOpt: 7, Commit: true}) // pool 4: (A,B,3), fee option 7, destination execution fails by code
+		g.add(Op{K: "send", Chain: 0, Dst: 1, Variant: "callrevert", Amount: 6, Fee: 0, Commit: true})         // pool 5: (A,B,4)
 		for _, x := range [][2]int{{2, 3}, {1, 4}, {1, 5}} {
 			g.add(Op{K: "recv", Chain: x[0], Pkt: x[1], Relayer: 0, FreshProof: true, Commit: false}) // accepted, ack 3 / 4 / 5
 			g.add(Op{K: "recv", Chain: x[0], Pkt: x[1], Relayer: 0, FreshProof: false, Commit: true}) // duplicate in the same block
@@ -608,6 +630,15 @@ func genSpec(r *hlib.Rand, seed uint64, idx, steps int, focus string) Spec {
 		g.add(Op{K: "send", Chain: 0, Dst: 1, Variant: "erc20", Amount: 20, Fee: 5, Commit: true}) // pool 6: (A,B,5), fee pending
 		g.add(Op{K: "ack", Chain: 0, Ack: 0, Relayer: 0, FreshProof: true, Commit: true})          // duplicate of the first acknowledgement
 		g.add(Op{K: "ack", Chain: 0, Ack: 1, Relayer: 0, FreshProof: false, Commit: true})         // and of the second
+		// post-processing failure INSIDE a destination callback: the agent contract on B sends the tokens on to a chain B
+		// has no client for — the EVM run succeeds and emits PacketSent, the packet hook fails in SendPacket: the whole
+		// callback must count as failed (error acknowledgement, nothing minted, no commitment); then the working route
+		g.add(Op{K: "send", Chain: 0, Dst: 1, Variant: "agent_unknown", Amount: 5, Fee: 0, FeeOpt: 2, Commit: true}) // pool 7: (A,B,6)
+		g.add(Op{K: "recv", Chain: 1, Pkt: 7, Relayer: 0, FreshProof: true, Commit: true})                           // ack 6: error ack
+		g.add(Op{K: "ack", Chain: 0, Ack: 6, Relayer: 0, FreshProof: true, Commit: true})
+		g.add(Op{K: "send", Chain: 0, Dst: 1, Variant: "agent", Amount: 5, Fee: 0, FeeOpt: 1, Commit: true}) // pool 8: (A,B,7)
+		g.add(Op{K: "recv", Chain: 1, Pkt: 8, Relayer: 0, FreshProof: true, Commit: true})                   // ack 7; onward packet pool 9: (B,C,3)
+		g.add(Op{K: "recv", Chain: 2, Pkt: 9, Relayer: 0, FreshProof: true, Commit: true})
 	case idx == 4:
 		// corpus: an Ethereum-secured counterparty (MPT storage proofs).  One alteration at a time: a genuine proof
 		// of ANOTHER storage slot (decoy: a slot that really holds this packet's commitment / this acknowledgement's
@@ -618,16 +649,23 @@ func genSpec(r *hlib.Rand, seed uint64, idx, steps int, focus string) Spec {
 			for i, v := range []string{"decoy", "otherslot", "payload", "ackslot", "height+1", "height-1", "nodelay", "future", "emptyproof"} {
 				g.add(Op{K: "recv_eth", Chain: ti, Seq: 1, Variant: v, Type: typ, Relayer: 0, Commit: i%3 == 2})
 			}
+			// the relayer forges the part of the proof the state root does not bind directly: a storage root of his own
+			// trie (holding the commitment of a packet that was never sent), account fields, a state trie of his own
+			for i, v := range []string{"forged_storage", "forged_nonce", "forged_balance", "forged_codehash", "forged_account"} {
+				g.add(Op{K: "recv_eth", Chain: ti, Seq: 1, Variant: v, Type: typ, Relayer: 0, Commit: i%3 == 2})
+			}
 			g.add(Op{K: "recv_eth", Chain: ti, Seq: 1, Variant: "good", Type: typ, Relayer: 2, Commit: false}) // unregistered relayer
 			g.add(Op{K: "recv_eth", Chain: ti, Seq: 1, Variant: "good", Type: typ, Relayer: 0, Commit: false}) // accepted
 			g.add(Op{K: "recv_eth", Chain: ti, Seq: 1, Variant: "good", Type: typ, Relayer: 0, Commit: true})  // duplicate
 			g.add(Op{K: "recv_eth", Chain: ti, Seq: 2, Variant: "good", Type: typ, Relayer: 0, Commit: true})
 			for k := 0; k < 4; k++ {
-				g.add(Op{K: "send", Chain: ti, Dst: dst, Variant: []string{"erc20", "base"}[k%2], Amount: uint64(10 + k), Fee: uint64(k % 3), Commit: k%2 == 1}) // (X, eth-i | bsc-i, k+1)
+				g.add(Op{K: "send", Chain: ti, Dst: dst, Variant: []string{"erc20", "base"}[k%2], Amount: uint64(10 + k), Fee: uint64(k % 3), FeeOpt: uint64(k % 2 * 7), Commit: k%2 == 1}) // (X, eth-i | bsc-i, k+1)
 			}
 			for i, v := range []string{"decoy", "otherslot", "commitslot", "ackbytes", "nodelay"} {
 				g.add(Op{K: "ack_eth", Chain: ti, Pkt: 0, Variant: v, Type: typ, Relayer: 0, Commit: i%2 == 1})
 			}
+			g.add(Op{K: "ack_eth", Chain: ti, Pkt: 0, Variant: "forged_storage", Type: typ, Relayer: 0, Commit: false}) // forged error ack over a relayer-built storage trie
+			g.add(Op{K: "ack_eth", Chain: ti, Pkt: 0, Variant: "forged_codehash", Type: typ, Relayer: 0, Commit: true})
 			g.add(Op{K: "ack_eth", Chain: ti, Pkt: 0, Variant: "good", Type: typ, Relayer: 0, Commit: false}) // accepted
 			g.add(Op{K: "ack_eth", Chain: ti, Pkt: 0, Variant: "good", Type: typ, Relayer: 0, Commit: true})  // duplicate
 			g.add(Op{K: "ack_eth", Chain: ti, Pkt: 3, Variant: "good", Type: typ, Relayer: 0, Commit: true})  // sequence 4: its slot is empty
@@ -635,7 +673,49 @@ func genSpec(r *hlib.Rand, seed uint64, idx, steps int, focus string) Spec {
 			g.add(Op{K: "ack_eth", Chain: ti, Pkt: 1, Variant: "good", Type: typ, Relayer: 1, Commit: true})
 		}
 		g.add(Op{K: "recv_eth", Chain: 2, Seq: 3, Variant: "good", Relayer: 0, Commit: true})
+	case idx == 5:
+		// corpus: governance between a send and its receive / acknowledgement.  An UPGRADE keeps the consensus states the
+		// client accepted (an old proof height still verifies); a TOGGLE (Tendermint -> TSS -> Tendermint) installs a new
+		// client instance that holds NONE of the old consensus states: a proof height from before the toggle must be
+		// refused although the proof itself is genuine, and the fresh proof is accepted.
+		g.add(Op{K: "send", Chain: 0, Dst: 1, Variant: "erc20", Amount: 30, Fee: 1, FeeOpt: 1, Commit: true}) // pool 0: (A,B,1)
+		g.add(Op{K: "send", Chain: 0, Dst: 1, Variant: "base", Amount: 31, Fee: 0, FeeOpt: 0, Commit: true})  // pool 1: (A,B,2)
+		g.add(Op{K: "update", Chain: 1, Peer: 0, Relayer: 0, Commit: true})                                   // B's client of A now proves both
+		g.add(Op{K: "block", Chain: 0})
+		g.add(Op{K: "upgrade_client", Chain: 1, Peer: 0, Type: "tm", Commit: true})
+		g.add(Op{K: "recv", Chain: 1, Pkt: 1, Alter: []string{"height_pretoggle"}, Relayer: 0, FreshProof: false, Commit: true}) // height from before the upgrade: still accepted
+		g.add(Op{K: "toggle_client", Chain: 1, Peer: 0, Type: "tss", Commit: true})
+		g.add(Op{K: "recv", Chain: 1, Pkt: 0, Relayer: 1, FreshProof: false, Commit: true}) // TSS now: signer is not the TSS address
+		g.add(Op{K: "block", Chain: 0})
+		g.add(Op{K: "toggle_client", Chain: 1, Peer: 0, Type: "tm", Commit: true})
+		g.add(Op{K: "recv", Chain: 1, Pkt: 0, Alter: []string{"height_pretoggle"}, Relayer: 0, FreshProof: false, Commit: true}) // genuine proof, height only the OLD instance accepted: refused
+		g.add(Op{K: "recv", Chain: 1, Pkt: 0, Alter: []string{"height_old"}, Relayer: 0, FreshProof: false, Commit: true})
+		g.add(Op{K: "recv", Chain: 1, Pkt: 0, Relayer: 0, FreshProof: true, Commit: true}) // accepted (ack 1; ack 0 came from the upgrade step)
+		// the acknowledgement side, on A
+		g.add(Op{K: "update", Chain: 0, Peer: 1, Relayer: 0, Commit: true})
+		g.add(Op{K: "toggle_client", Chain: 0, Peer: 1, Type: "tss", Commit: true})
+		g.add(Op{K: "block", Chain: 1})
+		g.add(Op{K: "toggle_client", Chain: 0, Peer: 1, Type: "tm", Commit: true})
+		g.add(Op{K: "ack", Chain: 0, Ack: 1, Alter: []string{"height_pretoggle"}, Relayer: 0, FreshProof: false, Commit: true}) // refused
+		g.add(Op{K: "ack", Chain: 0, Ack: 1, Relayer: 0, FreshProof: true, Commit: true})                                       // accepted
+		g.add(Op{K: "ack", Chain: 0, Ack: 0, Relayer: 0, FreshProof: true, Commit: true})                                       // accepted
+		g.add(Op{K: "toggle_client", Chain: 0, Peer: 1, Type: "tm", Commit: true})                                              // same type: refused
 	default:
+		if focus == "c02" && r.Chance(1, 6) {
+			// a toggle scenario with random choices inside an ordinary history
+			a := r.Intn(nChains)
+			b := (a + 1 + r.Intn(nChains-1)) % nChains
+			g.add(Op{K: "send", Chain: a, Dst: b, Variant: "erc20", Amount: uint64(1 + r.Intn(50)), Fee: 0, FeeOpt: g.feeOpt(), Commit: true})
+			g.pkts = append(g.pkts, gPkt{src: a, dst: b, ackIdx: -1})
+			g.add(Op{K: "update", Chain: b, Peer: a, Relayer: 0, Commit: true})
+			if r.Bool() {
+				g.add(Op{K: "upgrade_client", Chain: b, Peer: a, Type: "tm", Commit: true})
+			}
+			g.add(Op{K: "toggle_client", Chain: b, Peer: a, Type: "tss", Commit: true})
+			g.add(Op{K: "block", Chain: a})
+			g.add(Op{K: "toggle_client", Chain: b, Peer: a, Type: "tm", Commit: r.Bool()})
+			g.add(Op{K: "recv", Chain: b, Pkt: 0, Alter: []string{"height_pretoggle"}, Relayer: 0, FreshProof: false, Commit: true})
+		}
 		if r.Bool() {
 			g.happy(0, 1, "erc20", true)
 		}
